@@ -295,6 +295,16 @@ def judge_module(src: str, atok: Any) -> Iterator[Tuple[str, str, Dict[str, Any]
         )
 
 
+def start_of(atok: Any, src: str, node: ast.AST) -> int:
+    """The start offset error_message looks up (the un-modelled glue): the real asttokens range for
+    marked nodes; for nodes asttokens leaves unmarked (inside f-strings) the ``ast`` position."""
+    if hasattr(node, "first_token"):
+        return atok.get_text_range(node)[0]
+    lines = src.split("\n")
+    ln = node.lineno  # type: ignore
+    return sum(len(x) + 1 for x in lines[: ln - 1]) + char_col(lines, ln, node.col_offset)  # type: ignore
+
+
 def mk_atok(src: str) -> Any:
     import asttokens
 
@@ -330,6 +340,42 @@ def smoke_cases() -> List[pathlib.Path]:
     return sorted(p.parent for p in (REPO / "dev" / "test_data" / "smoke").rglob("meta_model.py"))
 
 
+# Rejected meta-models of the harness itself (next to the recorded ones of dev/test_data/smoke).
+EXTRA_PIPELINE_CASES: Dict[str, str] = {
+    # an error attached to a node *inside* an f-string, after non-ASCII text on the same line
+    "extra:f-string-conversion": '''"""Doc."""
+from re import match
+
+
+@verification
+def match_something(text: str) -> bool:
+    """Check é."""
+    prefix = "ü"
+    pattern = f"é^{prefix!r}$"
+    return match(pattern, text) is not None
+
+
+class Something:
+    """S."""
+
+    some_prop: str
+
+    def __init__(self, some_prop: str) -> None:
+        self.some_prop = some_prop
+
+
+__version__ = "dummy"
+__xml_namespace__ = "https://dummy.com"
+''',
+}
+
+
+def pipeline_cases() -> List[Tuple[str, str]]:
+    """(case id, source); the id of a recorded case is its directory relative to the repo."""
+    out = [(str(c.relative_to(REPO)), (c / "meta_model.py").read_text(encoding="utf-8")) for c in smoke_cases()]
+    return out + sorted(EXTRA_PIPELINE_CASES.items())
+
+
 def run_smoke(ctx: Ctx, src: str, crlf: bool) -> Tuple[Any, str]:
     import aas_core_codegen.smoke.main as smoke_main
 
@@ -345,9 +391,9 @@ def run_smoke(ctx: Ctx, src: str, crlf: bool) -> Tuple[Any, str]:
     return rc, err.getvalue().replace(str(p), "<meta_model.py>")
 
 
-def judge_pipeline(ctx: Ctx, case: pathlib.Path, variant: Tuple[str, str, bool]) -> List[Tuple[str, str]]:
+def judge_pipeline(ctx: Ctx, case_id: str, base: str, variant: Tuple[str, str, bool]) -> List[Tuple[str, str]]:
     name, front, crlf = variant
-    base = (case / "meta_model.py").read_text(encoding="utf-8")
+    case = pathlib.PurePosixPath(case_id)
     src = front + base
     rc, stderr = run_smoke(ctx, src, crlf)
     ctx.hit(f"pipeline:{name}")
@@ -564,7 +610,7 @@ def _run(ctx: Ctx, with_model: bool) -> None:
             ctx.fail({"kind": "module", "source": src, **extra}, what, sig)
         if with_model and nodes:
             # a nested error over real nodes: the start offsets are computed by the real asttokens
-            by_start = {atok.get_text_range(n)[0]: n for n in nodes}
+            by_start = {start_of(atok, src, n): n for n in nodes}
             ss = sorted(by_start)
             if len(ss) > 40:
                 ss = sorted(ctx.rng.sample(ss, 40))
@@ -580,13 +626,13 @@ def _run(ctx: Ctx, with_model: bool) -> None:
             ctx.traces_validated += 1
 
     # ---- (d) pipeline
-    cases = smoke_cases()
-    for case in cases:
+    cases = pipeline_cases()
+    for case_id, base in cases:
         for variant in VARIANTS:
-            ctx.count(("pipeline", case.name, variant[0]), nontrivial=True, stream="pipeline")
-            for sig, what in judge_pipeline(ctx, case, variant):
-                ctx.fail({"kind": "pipeline", "case": str(case.relative_to(REPO)), "variant": variant[0]}, what, sig)
-    if not cases:
+            ctx.count(("pipeline", case_id, variant[0]), nontrivial=True, stream="pipeline")
+            for sig, what in judge_pipeline(ctx, case_id, base, variant):
+                ctx.fail({"kind": "pipeline", "case": case_id, "variant": variant[0]}, what, sig)
+    if not smoke_cases():
         ctx.note("no recorded smoke cases found under dev/test_data/smoke")
 
 
@@ -620,7 +666,7 @@ def correspond(ctx: Ctx) -> None:
         "table: corpus + all texts of <=5 characters over {a, LF, CR, é} + seeded random texts over 21 character classes "
         "(non-trivial = contains a newline); errmsg: enumerated starts/nesting + every special whitespace/line-break "
         "character + random trees; module: hand-grown + recorded meta-models + generated valid modules through the real "
-        "asttokens (non-trivial = has positioned nodes); pipeline: 5 recorded rejected meta-models x 7 layout variants; "
+        "asttokens (non-trivial = has positioned nodes); pipeline: (5 recorded + 1 own) rejected meta-models x 7 layout variants; "
         "distinct by value"
     )
     _run(ctx, True)
@@ -663,10 +709,10 @@ def replay(ctx: Ctx, data: Dict[str, Any]) -> Any:
         if ctx.driver_ok:
             res["model"] = ctx.model([f"positions {enc_text(atok.text)}"])[0][:300]
     elif kind == "pipeline":
-        case = REPO / inp["case"]
+        base = dict(pipeline_cases())[inp["case"]]
         variant = [v for v in VARIANTS if v[0] == inp["variant"]][0]
-        res["oracle"] = judge_pipeline(ctx, case, variant)
-        res["impl"] = run_smoke(ctx, variant[1] + (case / "meta_model.py").read_text(encoding="utf-8"), variant[2])[1]
+        res["oracle"] = judge_pipeline(ctx, inp["case"], base, variant)
+        res["impl"] = run_smoke(ctx, variant[1] + base, variant[2])[1]
     else:
         res["error"] = f"unknown replay kind {kind!r}"
     return res
